@@ -18,7 +18,9 @@ CFG = {
             "clauses are evaluated on the observed state (Go side and, independently, by the Lean Spec in the driver) and the Lean model "
             "must reproduce the transition under an eviction oracle inferred from the observation (trace validation). Non-trivial = "
             "the operation was accepted or is a reset/price change (distinct transitions counted). Concurrent tier: goroutines submit and "
-            "publish head events through the real feed; snapshots under the pool lock are judged by the state clauses.",
+            "publish head events through the real feed; snapshots under the pool lock are judged by the state clauses; reader stress: six "
+            "goroutines read Pending()/Content()/Stats() against writers and every view handed out is judged (consecutive nonces starting "
+            "at a chain nonce some head had; re-read and compared with the pool's tables after quiescence).",
     "tie": {"txList.Add/Filter/Forward/Cap/Ready/Remove": "corr (trace validation of every pool transition against Model.TxPool)",
             "TxPool.add/validateTx/enqueueTx/promoteTx/removeTx/promoteExecutables/demoteUnexecutables/reset/SetGasPrice":
                 "corr (trace validation; eviction policy = inferred oracle, costcap/gascap compared as sound upper bounds)",
